@@ -510,6 +510,130 @@ def squash_kernel_checks(chk, n):
                       dict(log=(o + e)[-1500:], rows=[tuple(str(v) for v in row) for row in rows[:8]]))
 
 
+# ---------------------------------------------------------------- action dtype x bounds dtype (mixed precision, 64-bit)
+MP_EPS = {"float16": 2.0 ** -10, "bfloat16": 2.0 ** -7, "float32": 2.0 ** -23, "float64": 2.0 ** -52}      # spacing of the dtype at 1
+MP_PATHS = ("wrapper", "wrapper-jit", "vec-jit", "clip", "clip-vec-jit")
+
+
+def mp_gen_spec(r, adt, bdt, squash, path):
+    """one point of the configuration space 'dtype of the action handed to the wrapper' x 'dtype of the bounds the environment declares':
+    arbitrary decimal bounds (not representable in any binary dtype; 1 in 5 dyadic), raw actions that saturate tanh, come close to it,
+    sit on / just outside / inside the bounds"""
+    d = r.randint(1, 3)
+    narrow_b = bdt in ("float16", "bfloat16")
+    if r.random() < 0.2:
+        low = [r.randint(-24, 16) / 8 for _ in range(d)]; high = [l + r.randint(2, 32) / 8 for l in low]
+    else:
+        low = [round(r.uniform(-3, 3), 3) for _ in range(d)]
+        # reduced-precision bounds: keep the box well away from collapsing to a point when rounded (spacing of bfloat16 at 4 is 1/32)
+        high = [round(l + r.uniform(0.25 if narrow_b else 0.01, 4), 3) for l in low]
+    def one(i):
+        k = r.random()
+        if k < 0.3: return r.choice([-1, 1]) * r.choice([9.0, 9.5, 20.0, 25.0, 1000.0, 1e4, 1e6, float("inf")])      # saturates tanh / far out of range
+        if k < 0.45: return r.choice([-1, 1]) * r.uniform(3, 9)                                                      # tanh within a few ulp of +-1
+        if k < 0.6: return r.choice([low[i], high[i]])                                                               # on a face
+        if k < 0.75: return r.choice([high[i] + r.choice([1e-6, 1e-3, 0.1, 1.0]), low[i] - r.choice([1e-6, 1e-3, 0.1, 1.0])])   # just outside
+        if k < 0.9: return r.uniform(low[i], high[i])
+        return r.uniform(-3, 3)
+    xs = [[one(i) for i in range(d)] for _ in range(10)]
+    xs.append([r.choice([-1, 1]) * 20.0 for _ in range(d)]); xs.append([20.0] * d); xs.append([-20.0] * d)
+    return dict(low=low, high=high, bdt=bdt, adt=adt, squash=squash, path=path, xs=xs, np_bounds=(bdt == "float64" and r.random() < 0.5),
+                inv=([round(r.uniform(0.2, 0.8), 4) for _ in range(5)] if (path == "kernel" and squash) else []))
+
+
+def mp_judge(chk, spec, res, x64):
+    """the property's clauses on what the wrapped environment received (all numbers are float64 images of the real arrays: exact)"""
+    adt, bdt, sq, path = spec["adt"], spec["bdt"], spec["squash"], spec["path"]
+    conf = f"action={adt},bounds={bdt}" + (",x64" if x64 else "")
+    clipw = path.startswith("clip")
+    what_w = {"kernel": f"SquashState(squash={sq}).unsquash", "wrapper": f"SquashActionWrapper(squash={sq}).step", "wrapper-jit": f"jit(SquashActionWrapper(squash={sq}).step)",
+              "vec-jit": f"jit(VecEnvWrapper(SquashActionWrapper(squash={sq})).step)", "clip": "ClipActionWrapper.step",
+              "clip-vec-jit": "jit(VecEnvWrapper(ClipActionWrapper).step)"}[path]
+    case = dict(family="mixed-dtype", x64=x64, spec=spec)
+    feats = ["mixed-dtype", "action:" + adt, "bounds:" + bdt, "path:" + path] + (["x64"] if x64 else []) + \
+            (["action-narrower-than-bounds"] if MP_EPS[adt] > MP_EPS[bdt] else []) + (["np-bounds"] if spec.get("np_bounds") else [])
+    chk.case(("mixed-dtype", json.dumps(spec, sort_keys=True), x64), feats, dict(family="mixed-dtype", action_dtype=adt, bounds_dtype=bdt, squash=sq, path=path,
+                                                                                   low=spec["low"], high=spec["high"], x64=x64))
+    if "error" in res:
+        chk.violation(f"mixed-precision-raises:{'clip' if clipw else 'squash=' + str(sq)}:{conf}",
+                      f"rex raised in {what_w} with {adt} actions and {bdt} bounds: {res['error']}", case)
+        return
+    lo, hi = res["low"], res["high"]
+    for x, y in zip(res["xs_cast"], res["recv"]):
+        chk.traces_impl += 1
+        bad = [i for i in range(len(lo)) if not (lo[i] <= y[i] <= hi[i])]          # NaN fails both comparisons
+        if bad:
+            i = bad[0]
+            chk.violation(f"{'clipped' if clipw else 'squashed'}-action-outside-bounds-mixed-precision:{'clip' if clipw else 'squash=' + str(sq)}:{conf}",
+                          f"{what_w} with a {adt} action and {bdt} bounds: raw action {x!r} -> the wrapped environment received {y!r} "
+                          f"({res['recv_dtype']}), component {i} = {y[i]!r} is outside [low, high] = [{lo[i]!r}, {hi[i]!r}] "
+                          f"(by {max(y[i] - hi[i], lo[i] - y[i])!r}); the property says squashed/clipped actions always land inside the bounds",
+                          dict(case, raw_action=x, received=y, received_dtype=res["recv_dtype"], low=lo, high=hi))
+            return
+    # inverse law inside the box: y (bounds dtype) -> scale -> cast to the action dtype (the policy's output) -> unsquash ~ y.
+    # (y = low + f (high - low), f in [0.2, 0.8], as rounded in the bounds dtype; the comparison is against that rounded y.)
+    # Error budget: u = 2 (y - low) / (high - low) - 1 in [-0.6, 0.6] carries <= 3 roundings of the bounds dtype, arctanh' <= 1.6 there, the
+    # cast of z (|z| <= 0.7) and tanh in the action dtype a few roundings of that dtype (tanh' <= 1), and the affine map back
+    # 0.5 (t + 1) (high - low) + low halves the error in t and adds roundings relative to max(|low|, |high|).  With e = eps(action) + eps(bounds)
+    # (spacing at 1) that is < 4 e (high - low) + 2 e max(|low|, |high|); allowed: twice that.
+    # (floor 2^-48: XLA's float64 arctanh / tanh are only accurate to a few ulp, which dominates when both dtypes are float64)
+    e = max(MP_EPS[adt] + MP_EPS[bdt], 2.0 ** -48)
+    for yy, zc, back in res.get("inv", []):
+        chk.traces_impl += 1
+        for i in range(len(lo)):
+            tol = 8 * e * (hi[i] - lo[i]) + 4 * e * max(abs(lo[i]), abs(hi[i]))
+            if not (abs(back[i] - yy[i]) <= tol):
+                chk.violation(f"unsquash-scale-not-inverse-mixed-precision:{conf}",
+                              f"SquashState(low={lo[i]!r}, high={hi[i]!r}) with {bdt} bounds: unsquash(scale({yy[i]!r}).astype({adt})) = {back[i]!r} "
+                              f"(scaled value {zc[i]!r}), off by {abs(back[i] - yy[i])!r} > {tol!r}", dict(case, y=yy, z=zc, back=back))
+                return
+
+
+def mixed_precision_checks(chk, reps):
+    """the action wrappers under every combination of action dtype and bounds dtype: float16 / bfloat16 / float32 in this process, and the
+    combinations involving float64 in a child interpreter with JAX_ENABLE_X64=1"""
+    import subprocess
+    from . import c19_dtypes
+    r = chk.rnd
+    small = ["float16", "bfloat16", "float32"]
+    def specs_for(pairs):
+        out = []
+        for _ in range(reps):
+            for adt, bdt in pairs:
+                for sq in (True, False):
+                    out.append(mp_gen_spec(r, adt, bdt, sq, "kernel"))
+                    out.append(mp_gen_spec(r, adt, bdt, sq, r.choice(MP_PATHS)))
+        return out
+    specs = specs_for([(a, b) for a in small for b in small])
+    for s, res in zip(specs, c19_dtypes.run_specs(specs)):
+        mp_judge(chk, s, res, False)
+    allp = [(a, b) for a in small + ["float64"] for b in small + ["float64"] if "float64" in (a, b)]
+    specs64 = specs_for(allp)
+    res64 = mp_child(specs64)
+    if isinstance(res64, str):
+        chk.broke("mixed-precision-x64-child-did-not-complete", res64); return
+    for s, res in zip(specs64, res64):
+        mp_judge(chk, s, res, True)
+
+
+def mp_child(specs):
+    """run specs in a child interpreter with 64-bit JAX; returns the list of results or an error text"""
+    import subprocess
+    script = os.path.join(os.path.dirname(os.path.abspath(__file__)), "c19_dtypes.py")
+    try:      # (the timeout only guards against a hung child; it is not a criterion of any check)
+        p = subprocess.run([lib.PY, script], input=json.dumps(specs), capture_output=True, text=True, timeout=900,
+                           env=dict(lib.CHILD_ENV, JAX_ENABLE_X64="1"))
+    except subprocess.TimeoutExpired:
+        return "child interpreter (JAX_ENABLE_X64=1) did not finish"
+    if p.returncode != 0: return f"child exit {p.returncode}: {p.stderr[-600:]}"
+    try:
+        out = json.loads(p.stdout[p.stdout.index('{"x64"'):])
+    except Exception as ex:  # noqa
+        return f"child output unreadable ({type(ex).__name__}): {p.stdout[-300:]} {p.stderr[-300:]}"
+    if not out["x64"] or len(out["results"]) != len(specs): return "child did not run with 64-bit JAX / wrong number of results"
+    return out["results"]
+
+
 NV_HEADER = """From Coq Require Import List ZArith QArith Bool.
 From Rex Require Import Ops RlKernels RlEnv RlScript.
 Import ListNotations.
@@ -839,6 +963,12 @@ def run(chk, replay=None):
         if "repr" in cs:
             run_cases(chk, [eval(cs["repr"], {"Fraction": Fraction})])
             return
+        if cs.get("family") == "mixed-dtype":                            # one point of the action dtype x bounds dtype matrix
+            from . import c19_dtypes
+            res = mp_child([cs["spec"]]) if cs.get("x64") else c19_dtypes.run_specs([cs["spec"]])
+            if isinstance(res, str): chk.broke("mixed-precision-x64-child-did-not-complete", res)
+            else: mp_judge(chk, cs["spec"], res[0], bool(cs.get("x64")))
+            return
         if "low" in cs and "high" in cs and "x" in cs and "y" in cs:     # one float32 squash point
             import jax.numpy as jnp, numpy as onp
             from rex import rl
@@ -858,6 +988,7 @@ def run(chk, replay=None):
             import traceback
             chk.broke(f"{name}-did-not-complete:{type(ex).__name__}", traceback.format_exc()[-800:])
     guarded("squash-kernel-checks", squash_kernel_checks, 24 if chk.tier == "quick" else 120)
+    guarded("mixed-precision-checks", mixed_precision_checks, 1 if chk.tier == "quick" else 4)
     guarded("normalize-kernel-checks", normalize_kernel_checks, 60 if chk.tier == "quick" else 400)
     guarded("env-symbolic-check", env_symbolic_check)
     guarded("env-graph-check", env_graph_check, 3 if chk.tier == "quick" else 8)
@@ -874,7 +1005,13 @@ def run(chk, replay=None):
                          "fields belonging to its state (at an episode end under fixed_init: the stored initial ones). Plus AutoResetWrapper "
                          "(stored/fresh, single or vmapped+jitted, with/without LogWrapper) over an Environment on the compiled graph whose nodes "
                          "adapt their params in step() and whose pre-step hook edits params: episode-end steps must return the initial graph "
-                         "state field by field with the initial observation/info, other steps exactly the wrapped environment's result")
+                         "state field by field with the initial observation/info, other steps exactly the wrapped environment's result. Plus the "
+                         "action dtype x bounds dtype matrix (float16 / bfloat16 / float32 in-process, every pair involving float64 in a child "
+                         "interpreter with JAX_ENABLE_X64=1; jnp or numpy bounds): SquashState.unsquash, SquashActionWrapper.step (eager, jitted, "
+                         "vmapped+jitted) and ClipActionWrapper.step over an environment that reports the action it received, with arbitrary "
+                         "decimal bounds and raw actions that saturate tanh, nearly saturate it, sit on or just outside a face or inside the "
+                         "box: every received action must be inside [low, high] (compared exactly in float64), and unsquash(scale(y) cast to "
+                         "the action dtype) ~ y inside the box")
     chk.trusted += ["scripted environment SEnv (harness/c19.py) = Gallina s_reset/s_step (coq/RlScript.v): the wrapped environment of the model",
                     "PRNG: jax.random.split modelled as positions in the binary split tree; reset draws tabulated from the real keys along the "
                     "implementation's own path", "sat_tanh (float32 tanh is exactly +-1 for |x| >= 20, 0 at 0) and qsqrt (12 decimals) in the "
@@ -884,5 +1021,8 @@ def run(chk, replay=None):
     chk.notes += ["floating point: un-normalised values (states, observations, rewards, log totals) are dyadic and compared exactly; normalised "
                   "observations/rewards within 2e-3(1+|v|), normaliser states within 1e-4(1+|v|) (float32 accumulation); squash outputs may "
                   "sit on the closed bound in float32 (tanh saturates) while the theorem gives the open interval over R",
+                  "mixed precision: float16 / bfloat16 / float32 / float64 all embed exactly into float64, so 'inside [low, high]' is an exact "
+                  "comparison of the received action with the bounds the environment declares; the inverse law there is checked within "
+                  "8 e (high - low) + 4 e max(|low|, |high|), e = eps(action dtype) + eps(bounds dtype) (twice the rounding-error budget)",
                   "stackings with AutoResetWrapper outside LogWrapper are not generated: rex itself rejects them (lax.cond branch structures "
                   "differ); ClipActionWrapper outside SquashActionWrapper(squash=True) is exercised with zero actions only"]
